@@ -583,6 +583,14 @@ size_t rtosc_print_arg_val(const rtosc_arg_val_t *arg,
                     plain = false;
                 else for(const char* s = val->s + 1; *s && plain; ++s)
                     plain = (*s == '_' || (isalnum(*s)));
+                // words that the scanner reads as something else than an
+                // identifier must keep their quotes
+                static const char* const reserved[] = {
+                    "true", "false", "nil", "inf", "now", "immediately",
+                    "MIDI", "BLOB" };
+                for(size_t r = 0; plain && r < sizeof(reserved)/sizeof(*reserved); ++r)
+                    if(!strcmp(val->s, reserved[r]))
+                        plain = false;
             }
             else plain = false;
 
@@ -961,6 +969,7 @@ static const char* skip_word(const char* exp, const char** str)
                  (   !cur[explen]
                   || cur[explen] == '/' || cur[explen] == ']'
                   || cur[explen] == '.'
+                  || cur[explen] == '%' // a comment starts
                   || isspace(cur[explen])));
     if(match) {
         *str += explen;
